@@ -57,6 +57,63 @@ def full_call_name(mod, call):
     return d
 
 
+
+def _float_enumeration(f, mod, outer, inner, pstep):
+    """An np.arange call with an explicit non-integer step (or np.linspace)
+    among the definitions that flow into the inner loop's iterable."""
+    names = {n.id for n in ast.walk(inner.iter) if isinstance(n, ast.Name)}
+    exprs = [inner.iter]
+    changed = True
+    seen = set()
+    while changed:
+        changed = False
+        for st in ast.walk(f.node):
+            if isinstance(st, ast.Assign) and id(st) not in seen:
+                tn = set()
+                for t in st.targets:
+                    tn |= {n.id for n in ast.walk(t) if isinstance(n, ast.Name)}
+                if tn & names:
+                    seen.add(id(st))
+                    exprs.append(st.value)
+                    new = {n.id for n in ast.walk(st.value) if isinstance(n, ast.Name)}
+                    if not new <= names:
+                        names |= new
+                    changed = True
+    for e in exprs:
+        for c in ast.walk(e):
+            if not isinstance(c, ast.Call):
+                continue
+            fn = full_call_name(mod, c) or ""
+            if fn.endswith("arange"):
+                step = c.args[2] if len(c.args) >= 3 else next((k.value for k in c.keywords if k.arg == "step"), None)
+                if step is None:
+                    continue
+                try:
+                    cv = py_poly(step).const_or_none()
+                except NotAlgebraic:
+                    cv = None
+                if cv is not None and cv == int(cv):
+                    continue
+                if cv is not None or pstep in {n.id for n in ast.walk(step) if isinstance(n, ast.Name)}:
+                    return c
+    return None
+
+
+def _is_int_cast(mod, ex):
+    """np.array(v, dtype=<int>) / v.astype(<int>) / np.int64(v) / np.trunc / np.fix"""
+    def intish(n):
+        t = ast.unparse(n).replace(" ", "").replace('"', "'")
+        return t in ("int", "'int'", "'int64'", "'int32'", "'i8'", "'i4'") or t.endswith(".int64") or t.endswith(".int32") or t.endswith(".int_") or t.endswith(".intp")
+    if isinstance(ex, ast.Call):
+        fn = full_call_name(mod, ex) or ""
+        if any(k.arg == "dtype" and intish(k.value) for k in ex.keywords):
+            return True
+        if isinstance(ex.func, ast.Attribute) and ex.func.attr == "astype" and ex.args and intish(ex.args[0]):
+            return True
+        if fn in ("numpy.int64", "numpy.int32", "numpy.int_", "numpy.trunc", "numpy.fix"):
+            return True
+    return False
+
 def run(ctx, chk, tier="quick"):
     chk.explanation = (
         "API resolution of regrid.py / fit_offsets.py against the installed numpy / scipy; "
@@ -158,14 +215,32 @@ def run(ctx, chk, tier="quick"):
                     kinds.append((fn, c))
             if isinstance(c, ast.BinOp) and isinstance(c.op, ast.FloorDiv):
                 kinds.append(("floordiv", c))
+        if not kinds and _is_int_cast(mod, ex):
+            # an integer cast with no rounding call truncates toward zero
+            kinds.append(("truncation", ex))
         if kinds:
             rounded[b] = (ex, kinds)
-    if len(rounded) != 1:
-        # maybe start/stop rounded separately
-        chk.ob("C12.O2", False, where_of(f, outer),
-               "integer level indices come from %d differently rounded arrays: %s" % (len(rounded), sorted(rounded)),
-               "both ends of each pair are rounded by the same function (ceil of y / step)",
-               key="regrid|rounding-array", why="mixed rounding counts a level twice or never")
+    # (a) levels enumerated in floating point: np.arange with a non-integer step
+    fl = _float_enumeration(f, mod, outer, inner, pstep)
+    if fl is not None or len(rounded) != 1:
+        if fl is not None:
+            chk.ob("C12.O2", False, where_of(f, fl),
+                   "levels of a pair enumerated by %s" % ast.unparse(fl)[:100],
+                   "an integer range between the rounded ends; numpy computes the length of a float arange as ceil((stop - start) / step) "
+                   "in floating point, so the level the upper sample sits on can be included",
+                   key="regrid|float-enumeration",
+                   why="the upper-excluded rule is lost for steps that are not exactly representable (0.1, 0.3, ...): a level is reported twice")
+            return
+        all_kinds = sorted({k for (_ex, ks) in rounded.values() for (k, _c) in ks})
+        if len(rounded) >= 2 and all_kinds != ["ceil"]:
+            chk.ob("C12.O2", False, where_of(f, outer),
+                   "integer level indices come from %d differently rounded arrays: %s (%s)" % (len(rounded), sorted(rounded), ", ".join(all_kinds)),
+                   "both ends of each pair are rounded by the same function (ceil of y / step)",
+                   key="regrid|rounding-array", why="mixed rounding counts a level twice or never")
+            return
+        chk.indeterminate("C12.O2", where_of(f, outer),
+                          "the enumeration of a pair's levels is not built from one array of rounded level indices "
+                          "subscripted at i and i + 1 (%d candidate arrays)" % len(rounded))
         return
     rname, (rex, kinds) = next(iter(rounded.items()))
     kind, rcall = kinds[0]
